@@ -22,6 +22,8 @@ theorem params_match :
     -- M·S machines, stage table `arange(S).repeat_interleave(M)`, `wait_allowed = prev + waiting + done`,
     -- done rows not selected by the loop, `time += wrap`, `sub := 0` on wrap
     Params.ffspShapeFlags = [true, true, true, true, true, true] ∧
-    Params.ffspInitWaitMasked = true ∧ Params.ffspGenLowHigh = true := by decide
+    Params.ffspInitWaitMasked = true ∧ Params.ffspGenLowHigh = true ∧
+    -- `end_schedule = schedule + job_duration.permute(0,2,1)`, two `max(dim=-1)`, `reward = -max`
+    Params.ffspRewardShape = [true, true, true] := by decide
 
 end Rl4co.Ffsp
